@@ -98,6 +98,94 @@ func (g *guardCtx) unconv(e ast.Expr) ast.Expr {
 	}
 }
 
+// untype strips conversions to a named type: `byKey(xs)` denotes the same elements as `xs`
+func (g *guardCtx) untype(e ast.Expr) ast.Expr {
+	for {
+		e = unparen(e)
+		call, ok := e.(*ast.CallExpr)
+		if !ok || len(call.Args) != 1 {
+			return e
+		}
+		if tv, ok := g.info.Types[call.Fun]; !ok || !tv.IsType() {
+			return e
+		}
+		e = call.Args[0]
+	}
+}
+
+// sortInterfaceIndex: `x` is `recv[i]` inside the Less or Swap method of a slice type that implements sort.Interface
+// with `Len() int { return len(recv) }`, `i` is one of the method's (never re-assigned) parameters, and the package never
+// calls that Less/Swap itself – so the only caller is the sort package, which passes indices in [0, Len()).
+func (g *guardCtx) sortInterfaceIndex(x *ast.IndexExpr, fd *ast.FuncDecl) bool {
+	if fd == nil || fd.Recv == nil || len(fd.Recv.List) != 1 || len(fd.Recv.List[0].Names) != 1 || fd.Body == nil {
+		return false
+	}
+	if fd.Name.Name != "Less" && fd.Name.Name != "Swap" {
+		return false
+	}
+	recv := fd.Recv.List[0].Names[0]
+	rid, ok := unparen(x.X).(*ast.Ident)
+	if !ok || g.info.ObjectOf(rid) == nil || g.info.ObjectOf(rid) != g.info.ObjectOf(recv) {
+		return false
+	}
+	named, ok := g.info.TypeOf(recv).(*types.Named)
+	if !ok {
+		return false
+	}
+	if _, ok := named.Underlying().(*types.Slice); !ok {
+		return false
+	}
+	iid, ok := unparen(x.Index).(*ast.Ident)
+	if !ok {
+		return false
+	}
+	isParam := false
+	for _, fld := range fd.Type.Params.List {
+		for _, n := range fld.Names {
+			if g.info.ObjectOf(n) == g.info.ObjectOf(iid) {
+				isParam = true
+			}
+		}
+	}
+	if !isParam || g.assignsTo(fd.Body, iid.Name) || g.assignsTo(fd.Body, rid.Name) {
+		return false
+	}
+	// the three methods exist, and Len is exactly len(receiver)
+	var lenOK bool
+	methods := map[string]*types.Func{}
+	for i := 0; i < named.NumMethods(); i++ {
+		methods[named.Method(i).Name()] = named.Method(i)
+	}
+	if methods["Len"] == nil || methods["Less"] == nil || methods["Swap"] == nil {
+		return false
+	}
+	explicit := false
+	for _, p := range g.c.pkgs {
+		for _, f := range p.Syntax {
+			info := p.TypesInfo
+			ast.Inspect(f, func(n ast.Node) bool {
+				switch d := n.(type) {
+				case *ast.FuncDecl:
+					if d.Recv != nil && d.Name.Name == "Len" && info.ObjectOf(d.Name) == types.Object(methods["Len"]) && d.Body != nil && len(d.Body.List) == 1 &&
+						len(d.Recv.List) == 1 && len(d.Recv.List[0].Names) == 1 {
+						if r, ok := d.Body.List[0].(*ast.ReturnStmt); ok && len(r.Results) == 1 {
+							if l, ok := g.lenOf(r.Results[0]); ok && l == d.Recv.List[0].Names[0].Name {
+								lenOK = true
+							}
+						}
+					}
+				case *ast.SelectorExpr:
+					if o := info.ObjectOf(d.Sel); o != nil && (o == types.Object(methods["Less"]) || o == types.Object(methods["Swap"])) {
+						explicit = true
+					}
+				}
+				return true
+			})
+		}
+	}
+	return lenOK && !explicit
+}
+
 func (g *guardCtx) lenOf(e ast.Expr) (string, bool) {
 	call, ok := g.unconv(e).(*ast.CallExpr)
 	if !ok || len(call.Args) != 1 {
@@ -544,6 +632,9 @@ func (g *guardCtx) guardOfIndex(x *ast.IndexExpr, stack []ast.Node, fd *ast.Func
 			}
 		}
 	}
+	if g.sortInterfaceIndex(x, fd) {
+		return "sort-interface-method"
+	}
 	for _, f := range g.knownAt(x, stack) {
 		if f.kind == "idxLT" && f.expr == a && f.idx == g.str(g.unconv(x.Index)) {
 			return "bounds-checked"
@@ -739,7 +830,8 @@ func (g *guardCtx) classifyMapRange(rs *ast.RangeStmt, fnBody *ast.BlockStmt) st
 				bad("call of " + f.Name)
 			case *ast.SelectorExpr:
 				if pk, ok := f.X.(*ast.Ident); ok && pk.Name == "sort" {
-					if len(call.Args) >= 1 && (isLocalRooted(call.Args[0]) || keyedByLocal(call.Args[0])) {
+					// sort.Stable(byKey(own)) sorts `own`: a conversion to a named slice type shares the backing array
+					if len(call.Args) >= 1 && (isLocalRooted(g.untype(call.Args[0])) || keyedByLocal(g.untype(call.Args[0]))) {
 						return true
 					}
 					bad("sort of a shared slice inside the loop")
